@@ -959,9 +959,19 @@ func (sc c13Scenario) run(r Rng) (fails []Failure, reads *c13Reads) {
 				fail("flush", "Flush returned after %d outstanding-frame polls with %d frame(s) still outstanding", y-ybefore, left)
 			}
 		}
+		if sc.id%5 == 3 {
+			// the TNC's answers to the outstanding-frames query are damaged from here on: Close must
+			// still disconnect (a failed flush is no reason to leave the link up)
+			sim.mu.Lock()
+			sim.yBad = true
+			sim.mu.Unlock()
+		}
 		if err := conn.Close(); err != nil {
 			fail("close", "Close: %v", err)
 		}
+		sim.mu.Lock()
+		sim.yBad = false
+		sim.mu.Unlock()
 		if d := sim.frames('d'); len(d) != 1 || d[0].Port != sc.port || d[0].From != sc.mycall || d[0].To != sc.peer {
 			fail("close", "TNC saw disconnect frames %+v", d)
 		}
